@@ -324,15 +324,70 @@ PINNED = [
 ]
 
 
+# HELPERS the modelled behaviour relies on without being anchored: (file under aioslsk/, [items]); an item is `Class` (whole class
+# definition: enums, dataclasses, exceptions, settings), `Class.method` or a module-level `function`
+HELPERS = [
+    ('events.py', ['on_message', 'build_message_map', 'EventBus.__init__', 'EventBus.register', 'EventBus.unregister', 'EventBus.emit',
+                   'EventBus.emit_sync', 'EventBus._get_listeners_for_event', 'EventBus._remove_callback', 'Event',
+                   'ConnectionStateChangedEvent', 'PeerInitializedEvent', 'MessageReceivedEvent']),
+    ('utils.py', ['ticket_generator', 'task_counter']),
+    ('exceptions.py', ['AioSlskException', 'NetworkError', 'PeerConnectionError', 'ConnectionFailedError', 'ListeningConnectionFailedError',
+                       'ConnectionReadError', 'ConnectionWriteError', 'MessageSerializationError', 'MessageDeserializationError']),
+    ('settings.py', ['PeerSettings', 'ListeningSettings']),
+    ('network/connection.py', ['PeerConnectionType', 'ConnectionState', 'CloseReason', 'PeerConnectionState', 'Connection.__init__',
+                               'ListeningConnection.__init__', 'ListeningConnection.connect', 'ListeningConnection.disconnect',
+                               'DataConnection.__init__', 'DataConnection._read_message', 'DataConnection.encode_message_data',
+                               'DataConnection.decode_message_data', 'DataConnection.serialize_message', 'DataConnection._increase_read_timeout',
+                               'DataConnection.queue_messages', 'ServerConnection.__init__', 'ServerConnection.deserialize_message',
+                               'PeerConnection.__init__', 'PeerConnection.deserialize_message']),
+    ('network/network.py', ['PeerConnectMode', 'ExpectedResponse.__init__', 'ExpectedResponse.matches', 'PeerFuture', 'Network.__init__',
+                            'Network.create_server_connection', 'Network.create_listening_connections', 'Network.connect_listening_ports',
+                            'Network.disconnect', 'Network.get_peer_connection', 'Network.get_peer_connections', 'Network.get_active_peer_connections',
+                            'Network.register_response_future', 'Network._handle_connect_to_peer_callback', 'Network._cancel_all_tasks',
+                            'Network.send_server_messages', 'Network.queue_server_messages']),
+    ('protocol/messages.py', ['PeerInit', 'PeerPierceFirewall', 'ConnectToPeer', 'CannotConnect', 'GetPeerAddress']),
+    ('constants.py', None),     # whole module (only assignments)
+]
+
+
+def _digest(node) -> str:
+    dump = ast.dump(norm(node), annotate_fields=False, include_attributes=False)
+    return hashlib.sha256(dump.encode()).hexdigest()[:16]
+
+
+def _lookup(tree, item):
+    parts = item.split('.')
+    body = tree.body
+    node = None
+    for i, part in enumerate(parts):
+        node = None
+        for n in body:
+            if isinstance(n, (ast.ClassDef, ast.FunctionDef, ast.AsyncFunctionDef)) and n.name == part:
+                node = n
+            elif isinstance(n, ast.Assign) and any(isinstance(t, ast.Name) and t.id == part for t in n.targets):
+                node = n
+            elif isinstance(n, ast.AnnAssign) and isinstance(n.target, ast.Name) and n.target.id == part:
+                node = n
+        if node is None:
+            raise Refuse(f'helper {item} not found')
+        body = getattr(node, 'body', [])
+    return node
+
+
 def fingerprints(src: Path) -> dict:
     out = {}
     for fname, cls, funcs in PINNED:
         tree = ast.parse((src / 'aioslsk' / 'network' / fname).read_text())
         c = find_class(tree, cls)
         for f in funcs:
-            fn = find_func(c.body, f)
-            dump = ast.dump(norm(fn), annotate_fields=False, include_attributes=False)
-            out[f'{cls}.{f}'] = hashlib.sha256(dump.encode()).hexdigest()[:16]
+            out[f'{cls}.{f}'] = _digest(find_func(c.body, f))
+    for fname, items in HELPERS:
+        tree = ast.parse((src / 'aioslsk' / fname).read_text())
+        if items is None:
+            out[f'helper:{fname}'] = _digest(tree)
+            continue
+        for item in items:
+            out[f'helper:{fname}:{item}'] = _digest(_lookup(tree, item))
     return out
 
 
